@@ -31,7 +31,7 @@
 (*     NoOpIdentity  C14/C15  no-op calls return the relation itself       *)
 (*   requests the model refuses are emitted with their error class (C20).  *)
 (***************************************************************************)
-EXTENDS RA_SqlSem, RA_Diag, Json
+EXTENDS RA_SqlSem, RA_Diag, RA_Proc, Json
 
 CONSTANTS Contents, Sources, BaseDepth, FinalOps, Starts, Emit
 
@@ -248,6 +248,34 @@ NoPlacementColumnError ==
     \A c \in (IF final THEN {} ELSE FinalCalls(rel)) :
         LET r == CallResult(c, rel) IN IsErr(r) => r.err # "ColumnError"
 
+(* ---------------- the final call issued on a tree RETURNED BY process() ---------------- *)
+\* Processor.process hands back a tree whose transfers (and materializations)
+\* hold payloads; users keep building on it.  PBase is the as-coded processor
+\* (RA_Proc) run on the tree before the final call, PRes the final call issued
+\* on its result.  Outside the classes of the open findings F8/F16 (process()
+\* itself fails) and F2:
+\*   - the call is accepted exactly when it is accepted on the unprocessed tree
+\*     (payloads lock nothing: only materializations and leaves are locked),
+\*   - the result is well-formed, has the naive columns and denotes the reference rows,
+\*   - a payload survives only on a marker whose whole upstream is unchanged
+\*     (a marker rebuilt over a modified upstream must not keep a stale payload).
+PBase == ProcessTop(prev, {})
+PLast == hist[Len(hist)]
+PRes == IF IsErr(PBase) THEN PBase ELSE CallResult(PLast, PBase.t)
+PApplies == final /\ PLast.f \in {"un", "join"} /\ ~KF8Tree(prev) /\ ~KF2
+ProcessedBaseSound ==
+    PApplies =>
+        /\ ~IsErr(PBase)
+        /\ ~IsErr(PRes)
+        /\ WellFormed(PRes)
+        /\ Cols(PRes) = Cols(rel) /\ Eng(PRes) = Eng(rel)
+        /\ (ListDet(PRes, Env) /\ ListDet(PRes, Rev)) => Den(PRes, Env) = ref
+        /\ (BagDet(PRes, Env) /\ BagDet(PRes, Rev)) => SameBag(Den(PRes, Env), ref) /\ (src = "sql" => SameBag(Den(PRes, Rev), ref))
+        /\ \A n \in PaidNodes(PRes, PBase.paid) : n \in Nodes(PBase.t)
+        /\ \A n \in Nodes(PRes) : NodeTruthful(n, Env)
+\* companion (expected to FAIL with FixF17 overridden to FALSE): finding F17
+F17Gone == ProcessedBaseSound
+
 (* ---------------- refused requests (C20 with options) ---------------- *)
 IllOps == {Calc("k", Ref("z")), Calc("a", Fn("neg", <<B>>)), Proj({"a", "z"}),
            SelRaw(Cmp("eq", Ref("z"), Lit(0))), Sort(<<Term(Ref("z"), TRUE)>>), Slice(3, 1), Slice(-1, 2)}
@@ -284,5 +312,6 @@ EmitState ==
             mats |-> {n.name : n \in MatNodes(rel)},
             rejects |-> Rejects(rel),
             kf2 |-> KF2Matcher,
+            ptree |-> (IF PApplies /\ ~IsErr(PBase) /\ ~IsErr(PRes) THEN Flagged(PRes, PBase.paid) ELSE [k |-> "none"]),
             final |-> final, fired |-> Fired])>>)
 =============================================================================
